@@ -66,6 +66,34 @@ CHECKS.update({
                "bounded by <= 5 variables, <= 3 units"),
 })
 
+CHECKS.update({
+    "C02": ("Hypothesis PBT: generated circuits and operator pipelines compiled under the four (fold, optimize) settings "
+            "with tied parameter values; differential flag-vs-flag and against the numpy reference; addressability "
+            "invariant over the compiler state map",
+            "Exploration: each case is compiled four times from the same symbolic objects; outputs must agree pairwise "
+            "and with the reference, every symbolic tensor must be one distinct slice of one compiled tensor (shape, "
+            "dtype, requires_grad, sentinel write); bounded by <= 5 variables, <= 3 operators per pipeline.",
+            "Trusted: vlib/ref.py, vlib/ops.py, tolerance model; compiler.state.retrieve_compiled_parameter is used "
+            "to tie values (if it returned a stale tensor the reference comparison fails).",
+            "DESIGN.md section 4 C02"),
+    "C13": ("Hypothesis PBT: autograd gradients of generated compiled circuits, pulled back to symbolic tensors, vs "
+            "central finite differences of the numpy reference; differential across the four flag settings",
+            "Exploration: directional derivatives along one random direction per tensor (and along continuous inputs) "
+            "are compared with two-step finite differences of the same functional of the reference; gradients must "
+            "agree across fold/optimize settings and be finite where the value is non-zero; <= 4 variables.",
+            "Trusted: vlib/ref.py, finite-difference error estimate (difference of two step sizes), torch autograd "
+            "itself for the functional applied on top of the circuit output.",
+            "DESIGN.md section 4 C13"),
+    "C19": ("Hypothesis PBT over histories: generated circuits / pipelines with a drawn sequence of save, perturb, "
+            "reset and load steps; round-trip oracle (bit-identical outputs after load_state_dict into the same and "
+            "into a freshly compiled instance)",
+            "Exploration: state dictionaries are saved with torch.save and loaded strictly into the same instance and "
+            "into a fresh compilation with different initial values; outputs must be bit-identical; each learnable "
+            "tensor must occur exactly once in a base circuit's dictionary; <= 5 steps, <= 3 operators.",
+            "Trusted: torch.save/load, determinism of single-threaded CPU evaluation.",
+            "DESIGN.md section 4 C19"),
+})
+
 NOT_APPLICABLE = {}
 
 
